@@ -177,6 +177,54 @@ fn fits(need: &[u64; 3], free: &[u64; 3]) -> bool {
     (0..3).all(|k| need[k] <= free[k])
 }
 
+/// "Reservation" family: one or two partly busy workers, three or four cpu-only classes of
+/// sizes up to 8 whose priority grows with their size, so that the top class usually does not
+/// fit beside what is running, the worker is kept for it, and only the leftover ("gap") beside
+/// the reserved amount may go to smaller tasks.
+pub fn gen_reservation_inst(rng: &mut Rng) -> Inst {
+    let n_workers = if rng.chance(70, 100) { 1 } else { 2 };
+    let workers: Vec<[u32; 3]> = (0..n_workers).map(|_| [*rng.pick(&[5u32, 6, 7, 8, 9, 10, 10, 12, 16]), 0, 0]).collect();
+    let n_classes = rng.range(3, 4) as usize;
+    let mut sizes: Vec<u32> = Vec::new();
+    while sizes.len() < n_classes {
+        let c = rng.range(1, 8) as u32;
+        if !sizes.contains(&c) {
+            sizes.push(c);
+        }
+    }
+    sizes.sort_unstable_by(|a, b| b.cmp(a));
+    let classes: Vec<[u32; 3]> = sizes.iter().map(|c| [*c, 0, 0]).collect();
+    let mut busy = Vec::new();
+    if rng.chance(85, 100) {
+        for _ in 0..rng.range(1, 2) {
+            // mostly a class below the top one
+            let c = if rng.chance(80, 100) { rng.range(1, n_classes as u64 - 1) as usize } else { 0 };
+            busy.push((c, rng.range(1, 2) as u32));
+        }
+    }
+    let mut queue: Vec<(i32, usize, u32)> = Vec::new();
+    for (c, _) in classes.iter().enumerate() {
+        if c > 0 && rng.chance(15, 100) {
+            continue;
+        }
+        // class 0 is the biggest: highest priority, unless this instance shuffles priorities
+        let p = if rng.chance(85, 100) { 2 * (n_classes - c) as i32 + rng.below(2) as i32 } else { rng.below(8) as i32 };
+        let n = if rng.chance(25, 100) { rng.range(2, 5) as u32 } else { 1 };
+        queue.push((p, c, n));
+    }
+    queue.sort_by(|a, b| b.0.cmp(&a.0).then(a.1.cmp(&b.1)));
+    let used: Vec<usize> = (0..classes.len()).filter(|c| queue.iter().any(|q| q.1 == *c) || busy.iter().any(|b| b.0 == *c)).collect();
+    let remap: BTreeMap<usize, usize> = used.iter().enumerate().map(|(new, old)| (*old, new)).collect();
+    let classes = used.iter().map(|c| classes[*c]).collect();
+    for q in queue.iter_mut() {
+        q.1 = remap[&q.1];
+    }
+    for b in busy.iter_mut() {
+        b.0 = remap[&b.0];
+    }
+    Inst { workers, classes, busy, queue }
+}
+
 /// Runs one instance through the real scheduler and judges the decision.
 pub async fn run_inst(inst: &Inst, tmp: &std::path::Path) -> Result<Judged, String> {
     let mut sim = Sim::new(SimConfig { prefill_reserve: 16, prefill_max: 40, journal_dir: tmp.to_path_buf(), real_launcher: None });
@@ -194,6 +242,11 @@ pub async fn run_inst(inst: &Inst, tmp: &std::path::Path) -> Result<Judged, Stri
             }
         }
         apply(&mut sim, &Action::Req { client: 0, req: ClientReq::Submit { job: None, max_fails: None, spec: SubmitSpec::Graph { reqs: reqs.clone(), tasks }, stream: false } }).await;
+        // the submit is answered only after its journal flush; until then the client loop does
+        // not read the next request
+        while !sim.pending_flushes.is_empty() {
+            apply(&mut sim, &Action::AnswerFlush).await;
+        }
         let now = sim.now();
         let r = sim.inc.server.run_scheduling(now);
         if r != 0 {
@@ -264,6 +317,15 @@ pub async fn run_inst(inst: &Inst, tmp: &std::path::Path) -> Result<Judged, Stri
     }
     judged.dispatched = dispatched.len();
     judged.waiting = waiting.len();
+    if std::env::var("HQV_SCHED_DEBUG").is_ok() {
+        eprintln!("instance {}", inst.key());
+        for t in &after.tasks {
+            eprintln!("  task {:?} prio {:?} rq {} {:?} (ready before: {})", crate::sim::conv::tid(t.id), t.priority, t.resource_rq_id, t.state, was_ready.contains(&t.id));
+        }
+        for w in &before.workers {
+            eprintln!("  worker {} before: {:?}", w.id, w.assignment);
+        }
+    }
     // one representative per (prio, class) of the waiting tasks
     let mut reps: BTreeMap<(i32, usize), u32> = BTreeMap::new();
     for (id, p, c) in &waiting {
@@ -334,6 +396,17 @@ pub fn corpus(n: u64) -> Vec<Inst> {
     while (out.len() as u64) < n {
         let style = rng.below(2);
         let inst = gen_inst(&mut rng, style);
+        if seen.insert(inst.key()) {
+            out.push(inst);
+        }
+    }
+    // second part (added later, so the first `n` members and their keys stay what they were):
+    // the reservation family
+    let mut rng = Rng::new(0xC15_0003);
+    let mut guard = 0u64;
+    while (out.len() as u64) < n + n / 2 && guard < 40 * n {
+        guard += 1;
+        let inst = gen_reservation_inst(&mut rng);
         if seen.insert(inst.key()) {
             out.push(inst);
         }
@@ -448,6 +521,12 @@ pub fn main(args: &[String]) -> i32 {
         }
         if j.busy_placed > 0 {
             c(&mut cov, "decisions_on_partly_busy_cluster", 1);
+            if j.dispatched + j.waiting > 0 {
+                c(&mut cov, "decisions_on_partly_busy_cluster_with_ready_tasks_judged", 1);
+            }
+            if j.pairs_checked > 0 {
+                c(&mut cov, "decisions_on_partly_busy_cluster_with_pairs_checked", 1);
+            }
         }
         if j.pairs_checked > 0 {
             hashes.insert(rng::mix(inst.key().bytes().fold(0u64, |h, b| h.wrapping_mul(1099511628211) ^ b as u64)));
@@ -490,8 +569,8 @@ pub fn main(args: &[String]) -> i32 {
         "samples": samples,
         "regress_replayed": n_regress,
         "extra": {"corpus_size": n_corpus, "shapes (workers x classes, b = partly busy): judged/inversions": shape_stats.iter().map(|(k, v)| format!("{k}:{}/{}", v.0, v.1)).collect::<Vec<_>>().join(" ")},
-        "rule": "one real scheduling decision per instance: 1-3 workers (cpus, optionally gpus/mem; idle or partly busy through an earlier decision), 1-4 single-variant single-node request classes, up to 8 priority levels, default min-utilisation; judged only if the solve completed (optimal). Part 1: a fixed seed-independent corpus of 20000 instances, every member judged in every run, failing members identified by instance key (the members failing on the unchanged tree are listed one by one in known_findings.json). Part 2: seed-dependent random instances; only single-class instances bear a verdict, inversions in the others are counted and classified (they cannot be told apart from the recorded approximation defects). Non-trivial = at least one (dispatched lower, waiting higher) pair was examined",
-        "minima": {"decisions_judged": 15000, "pairs_checked": 2000, "decisions_on_partly_busy_cluster": 1000, "exception_other_worker_busy": 8},
+        "rule": "one real scheduling decision per instance: 1-3 workers (cpus, optionally gpus/mem; idle or partly busy through an earlier decision), 1-4 single-variant single-node request classes, up to 8 priority levels, default min-utilisation; judged only if the solve completed (optimal). Part 1: a fixed seed-independent corpus of 30000 instances (20000 general ones + 10000 of the `reservation` family: 1-2 partly busy workers, 3-4 cpu classes of sizes up to 8 whose priority grows with the size), every member judged in every run, failing members identified by instance key (the members failing on the unchanged tree are listed one by one in known_findings.json). Part 2: seed-dependent random instances; only single-class instances bear a verdict, inversions in the others are counted and classified (they cannot be told apart from the recorded approximation defects). Non-trivial = at least one (dispatched lower, waiting higher) pair was examined",
+        "minima": {"decisions_judged": 22000, "pairs_checked": 3000, "decisions_on_partly_busy_cluster": 1000, "decisions_on_partly_busy_cluster_with_pairs_checked": 1500, "exception_other_worker_busy": 8},
         "assumptions": [
             "the decision is read from the core snapshots before/after run_scheduling (tasks that went from ready to assigned); prefilled tasks (worker backlog) hold no resources and are not counted as dispatched",
             "'fits once the lower-priority tasks dispatched there are left out' = request <= free before the decision minus the requests the decision placed there with priority >= the waiting task's; the exception applies when another worker is large enough by its total resources but lacks free resources under the same rule",
